@@ -332,6 +332,18 @@ def machine_class(acc, gc_choices=(0, 1, 2.5, '30.5', 30, 100, 300)):
                            'light_gc_time = {!r}'.format(
                                ex, self.dir.gc_time))
 
+        @rule(snapshot=snapshots(), extra=st.sampled_from([0.25, 1, 50]))
+        def age_out(self, snapshot, extra):
+            # everything not in the snapshot is now too old: expiry of lights
+            # that moved before, and room for them to come back elsewhere
+            self._ensure()
+            self.dir.advance(float(self.dir.gc_time) + extra)
+            try:
+                self.dir.refresh(snapshot)
+            except Exception as ex:     # noqa
+                self._fail('refresh-raised', 'refresh() raised {!r}'.format(
+                    ex))
+
         @rule(snapshot=snapshots(), victim=st.integers(0, 5),
               op=st.sampled_from(['lan', 'get_label', 'get_group',
                                   'get_location']))
